@@ -109,11 +109,21 @@ theorem idxLI_nat {α : Type} {l : List α} {k : Nat} (h : k < l.length) : Go.id
 /-! ### ParseSampledHeaderConfig -/
 
 /-- `ParseSampledHeaderConfig(flowMessage, &h, config)`: protocol 1 (Ethernet) goes to the dissector, with the default
-    environment when `config` is the nil interface; everything else leaves the message alone -/
+    environment when `config` is the nil interface; everything else leaves the message alone. What is dissected is the
+    header data cut to the announced length (`if n := int(OriginalLength); n < len(data) { data = data[:n] }`: the XDR
+    padding the decoder keeps is not dissected; `List.take` leaves a list that is not longer than `n` alone) -/
 theorem parseSampledHeaderConfig_eq (m : FlowMsg) (h : TSP.SampledHeader) (cfg : Option Config) :
     TSP.ParseSampledHeaderConfig m h cfg =
-      if h.Protocol.toNat = 1 then parsePacket (cfg.getD {}) m h.HeaderData else .ok m := by
+      if h.Protocol.toNat = 1 then parsePacket (cfg.getD {}) m (h.HeaderData.take h.OriginalLength.toNat) else .ok m := by
   unfold TSP.ParseSampledHeaderConfig
+  -- `if n < len(data) { data = data[:n] }` then the rest `k` on `data`: the rest on `data.take n`
+  have hcut : ∀ (k : Bytes → Res FlowMsg) (d : Bytes) (n : Nat),
+      (if decide (n < d.length) then Go.sliceTo d n >>= fun t => k t else k d) = k (d.take n) := by
+    intro k d n
+    by_cases hn : n < d.length
+    · simp [hn, Go.sliceTo, Nat.le_of_lt hn]
+    · simp [hn, List.take_of_length_le (Nat.le_of_not_lt hn)]
+  simp only [hcut]
   by_cases hp : h.Protocol = 1
   · have : h.Protocol.toNat = 1 := by rw [hp]; rfl
     cases cfg with
